@@ -106,6 +106,7 @@ type c32Hist struct {
 	impl    []string
 	hist    []string
 	ghosts  int
+	last    string // most recently joined real node
 	aborted string
 }
 
@@ -397,10 +398,32 @@ func c32RunHistory(t *testing.T, rep *vfReport, r *vfRng, nOps, maxReal int, scr
 				break
 			}
 			h.join("join-new", h.leader, n.Name, n.Addr, kind == "join-new-voter")
+			h.last = n.Name
 			if h.aborted == "" {
 				if _, err := n.S.WaitForLeader(60 * time.Second); err != nil {
 					h.aborted = "joined node sees no leader"
 				}
+			}
+		case "rejoin-other-role-last", "reap-last-1m", "reap-last-7m", "reap-last-20m":
+			// directed steps on the most recently joined real node
+			var m *c32Member
+			for i := range others {
+				if others[i].id == h.last {
+					m = &others[i]
+				}
+			}
+			if m == nil {
+				continue
+			}
+			switch kind {
+			case "rejoin-other-role-last":
+				h.join("rejoin-other-role", h.leader, m.id, m.addr, !m.voter)
+			case "reap-last-1m":
+				h.reapInject(m.id, time.Minute)
+			case "reap-last-7m":
+				h.reapInject(m.id, 7*time.Minute)
+			default:
+				h.reapInject(m.id, 20*time.Minute)
 			}
 		case "rejoin-same":
 			if len(others) == 0 {
@@ -678,21 +701,33 @@ func TestVerifC32(t *testing.T) {
 		{"join-new-voter", "rejoin-same", "rejoin-other-role", "new-id-on-used-address", "join-new-nonvoter", "rejoin-other-role", "rejoin-new-address",
 			"ghost-nonvoter", "used-id-on-new-address", "join-on-follower", "reap-observation", "remove-unknown", "remove-member", "reap-observation"},
 	}
-	for _, sc := range directed {
-		ops, impl, ok := c32RunHistory(t, rep, r, len(sc), maxReal, sc)
+	guarded := func(nOps int, script []string) {
+		var ops, impl []string
+		ok := false
+		fin, dump := clu8Guard(10*time.Minute, func() { ops, impl, ok = c32RunHistory(t, rep, r, nOps, maxReal, script) })
+		if !fin {
+			rep.Note("C32: a history did not finish within 10 min and was abandoned; goroutines: %s", dump)
+			rep.Count("histories-abandoned-by-watchdog")
+			return
+		}
 		if ok {
 			completed++
 		}
 		segOps, segImpl = append(segOps, ops), append(segImpl, impl)
 	}
+	// a node fails a heartbeat (not yet due for reaping), comes back with the OTHER role, fails again:
+	// the timeout that counts is the one of its CURRENT role (7 min: above the non-voter timeout of
+	// 5 min, below the voter timeout of 10 min)
+	directed = append(directed,
+		[]string{"join-new-voter", "join-new-nonvoter", "reap-last-1m", "rejoin-other-role-last", "reap-last-7m", "reap-last-20m"},
+		[]string{"join-new-voter", "join-new-voter", "reap-last-1m", "rejoin-other-role-last", "reap-last-1m", "reap-last-7m"})
+	for _, sc := range directed {
+		guarded(len(sc), sc)
+	}
 	hists := vfScale(1, 25)
 	nOps := vfScale(14, 30)
 	for i := 0; i < hists; i++ {
-		ops, impl, ok := c32RunHistory(t, rep, r, nOps, maxReal, nil)
-		if ok {
-			completed++
-		}
-		segOps, segImpl = append(segOps, ops), append(segImpl, impl)
+		guarded(nOps, nil)
 	}
 	rep.CountN("histories-completed", completed)
 	if completed == 0 {
